@@ -3555,7 +3555,10 @@ func (a *Association) handleForwardTSN(chunkTSN *chunkForwardTSN) []*packet {
 	// corresponding streams so that the abandoned chunks can be removed
 	// from the reassemblyQueue.
 	for _, forwarded := range chunkTSN.streams {
-		if s, ok := a.streams[forwarded.identifier]; ok {
+		// The skipped message may be the first one the peer ever sent on this stream.
+		// Create the stream so the skip is not lost; otherwise later ordered messages
+		// would wait forever for the abandoned sequence number.
+		if s := a.getOrCreateStream(forwarded.identifier, true, PayloadTypeUnknown); s != nil {
 			s.handleForwardTSNForOrdered(forwarded.sequence)
 		}
 	}
@@ -3596,7 +3599,8 @@ func (a *Association) handleIForwardTSN(chunkTSN *chunkIForwardTSN) []*packet {
 	a.payloadQueue.advanceCumulativeTSN(chunkTSN.newCumulativeTSN)
 
 	for _, forwarded := range chunkTSN.streams {
-		if s, ok := a.streams[forwarded.identifier]; ok {
+		// See handleForwardTSN: the stream may not exist yet on this side.
+		if s := a.getOrCreateStream(forwarded.identifier, true, PayloadTypeUnknown); s != nil {
 			if forwarded.unordered {
 				s.handleForwardTSNForUnorderedMID(forwarded.messageIdentifier)
 			} else {
